@@ -35,6 +35,12 @@ checks = []
 for pid in ALL:
     if pid in CLAIMED:
         tech, text, note, ref = CLAIMED[pid]
+        if pid in ("C01", "C17"):
+            tech += "; thorough tier adds a coverage-guided libFuzzer campaign (target fz_chain) with the same oracle inside the target"
+        elif pid in ("C08", "C15"):
+            tech += "; thorough tier adds a coverage-guided libFuzzer campaign (target fz_nopanic) with the same oracle inside the target"
+        elif pid in ("C02", "C03", "C04", "C05", "C06", "C07", "C10", "C11", "C12", "C13", "C14"):
+            tech += "; thorough tier adds eight coverage-guided libFuzzer campaigns (target fz_single) whose inputs decode to cases of these clauses"
         checks.append({
             "property_id": pid,
             "quick_cmd": f"./check.sh {pid} quick",
